@@ -47,9 +47,9 @@ func (x *Exec) loopInvariants(st ast.Stmt) ([]*SpecExpr, string) {
 func (x *Exec) specEnvAt(s *State, pos token.Pos) *SpecEnv {
 	f := x.fn
 	vars := map[string]Val{}
+	// <param>0 names the entry value of a parameter (Go parameters are mutable locals)
 	for k, v := range f.specVars {
-		_ = v
-		_ = k
+		vars[k+"0"] = v
 	}
 	var scope *types.Scope
 	if f.pkg != nil {
